@@ -33,6 +33,9 @@ Verdict(r) ==
                  ELSE IF \E l \in ToSet(s.layers) : l \notin ToSet(blockLayers) THEN "C06:block-lost"
                  ELSE "C06:block-split", "">>
      ELSE IF p.stray > 0 THEN <<"C06:line-outside-block", "">>
+     \* a message of a worker thread (about another child) with more of the
+     \* block after it: the block is not contiguous
+     ELSE IF p.inside > 0 THEN <<"C06:message-inside-block", "">>
      ELSE IF \E b \in B : p.blocks[b].toks # s.tokens[p.blocks[b].l]
           THEN <<"C06:block-content", p.blocks[CHOOSE b \in B : p.blocks[b].toks # s.tokens[p.blocks[b].l]].l>>
      ELSE IF p.failed # s.failed \/ p.ran # s.ran \/ p.failures # s.failures \/ p.errors # s.errors
